@@ -44,6 +44,7 @@ import (
 	"go/printer"
 	"go/token"
 	"go/types"
+	"math/big"
 	"strings"
 )
 
@@ -116,12 +117,30 @@ type xlFn struct {
 	recv    types.Object
 	recvPtr bool
 	vars    map[types.Object]string
+	ext     *xlExt // part 2 (xlate2_s3.go): field reads and listed call sites become parameters; nil = part-1 behaviour
 }
 
 type xlTerm struct {
 	params []string
+	ptypes []string // Lean type per parameter ("Nat", "Int", "Bool", or a function type for a call-site parameter)
 	body   string
-	ret    string // "Nat" or "Bool"
+	ret    string // "Nat", "Int" or "Bool"
+}
+
+// leanSig renders the Lean type of the closed lambda.
+func (t *xlTerm) leanSig() string {
+	var b strings.Builder
+	for i := range t.params {
+		pt := "Nat"
+		if i < len(t.ptypes) && t.ptypes[i] != "" {
+			pt = t.ptypes[i]
+		}
+		if strings.Contains(pt, "→") {
+			pt = "(" + pt + ")"
+		}
+		b.WriteString(pt + " → ")
+	}
+	return b.String() + t.ret
 }
 
 func xlateSpec(f *factSet, repo string, sp *xlSpec) error {
@@ -167,7 +186,7 @@ func xlateSpec(f *factSet, repo string, sp *xlSpec) error {
 			f.Raw(name+"_unsupported", "String", xlLeanString(err.Error()))
 			continue
 		}
-		ty := strings.Repeat("Nat → ", len(t.params)) + t.ret
+		ty := t.leanSig()
 		term := t.body
 		if len(t.params) > 0 {
 			term = "fun " + strings.Join(t.params, " ") + " => " + t.body
@@ -269,6 +288,39 @@ func (c *xlCtx) width(n ast.Node, t types.Type) (int, error) {
 	return 0, c.errf(n, "type %s is not an unsigned integer (outside the fragment)", t)
 }
 
+// ityp: width and signedness of an integer type (part 2: signed types are translated to Int with an
+// explicit two's-complement wrap per static type, see xlWrapS).
+func (c *xlCtx) ityp(n ast.Node, t types.Type) (w int, signed bool, err error) {
+	if t == nil {
+		return 0, false, c.errf(n, "expression without a type")
+	}
+	b, ok := t.Underlying().(*types.Basic)
+	if !ok {
+		return 0, false, c.errf(n, "non-integer type %s", t)
+	}
+	switch b.Kind() {
+	case types.Int8:
+		return 8, true, nil
+	case types.Int16:
+		return 16, true, nil
+	case types.Int32: // rune
+		return 32, true, nil
+	case types.Int64, types.Int: // 64-bit targets
+		return 64, true, nil
+	}
+	w, err = c.width(n, t)
+	return w, false, err
+}
+
+// xlWrapS: wrapS w x := ((x + 2^(w-1)) % 2^w) - 2^(w-1) on Int, spelled out (Facts.lean imports nothing).
+func xlWrapS(w int, x string) string {
+	// decimal literals with ascriptions: `2^63` leaves a default-instance problem per occurrence to the end of
+	// the elaboration of the whole term, which does not scale to the larger bodies
+	h := new(big.Int).Lsh(big.NewInt(1), uint(w-1)).String()
+	m := new(big.Int).Lsh(big.NewInt(1), uint(w)).String()
+	return fmt.Sprintf("(((%s) + (%s : Int)) %% (%s : Int) - (%s : Int))", x, h, m, h)
+}
+
 func (c *xlCtx) isBool(t types.Type) bool {
 	if t == nil {
 		return false
@@ -281,8 +333,12 @@ func (c *xlCtx) leanType(n ast.Node, t types.Type) (string, error) {
 	if c.isBool(t) {
 		return "Bool", nil
 	}
-	if _, err := c.width(n, t); err != nil {
+	_, sg, err := c.ityp(n, t)
+	if err != nil {
 		return "", err
+	}
+	if sg {
+		return "Int", nil
 	}
 	return "Nat", nil
 }
@@ -308,14 +364,18 @@ func (c *xlCtx) fn(fd *ast.FuncDecl) (*xlTerm, error) {
 			x.recvPtr = true
 			rt = p.Elem()
 		}
+		rty := "Nat"
 		if c.spec.loaded == "" {
-			if _, err := c.width(fl.Type, rt); err != nil {
+			lt, err := c.leanType(fl.Type, rt)
+			if err != nil {
 				return nil, err
 			}
+			rty = lt
 		}
 		x.recv = obj
 		x.vars[obj] = xlIdent(fl.Names[0].Name)
 		t.params = append(t.params, x.vars[obj])
+		t.ptypes = append(t.ptypes, rty)
 	}
 	for _, fl := range fd.Type.Params.List {
 		for _, nm := range fl.Names {
@@ -323,11 +383,13 @@ func (c *xlCtx) fn(fd *ast.FuncDecl) (*xlTerm, error) {
 			if obj == nil {
 				return nil, c.errf(nm, "parameter without an object")
 			}
-			if _, err := c.width(nm, obj.Type()); err != nil {
+			lt, err := c.leanType(nm, obj.Type())
+			if err != nil {
 				return nil, err
 			}
 			x.vars[obj] = xlIdent(nm.Name)
 			t.params = append(t.params, x.vars[obj])
+			t.ptypes = append(t.ptypes, lt)
 		}
 		if len(fl.Names) == 0 {
 			return nil, c.errf(fl.Type, "unnamed parameter")
@@ -513,6 +575,13 @@ func (x *xlFn) constant(e ast.Expr, tv types.TypeAndValue) (string, error) {
 		}
 		return "false", nil
 	case constant.Int:
+		// part 2: a constant of a signed integer type is an Int literal; a negative constant needs a
+		// signed (or untyped) type
+		if b, ok := tv.Type.Underlying().(*types.Basic); ok && b.Info()&types.IsInteger != 0 && b.Info()&types.IsUnsigned == 0 {
+			if b.Info()&types.IsUntyped == 0 || constant.Sign(tv.Value) < 0 {
+				return "(" + tv.Value.ExactString() + " : Int)", nil
+			}
+		}
 		if constant.Sign(tv.Value) < 0 {
 			return "", c.errf(e, "negative constant")
 		}
@@ -573,9 +642,12 @@ func (x *xlFn) expr(e ast.Expr) (string, error) {
 			}
 			return fmt.Sprintf("((2^%d - 1) ^^^ (%s))", w, a), nil
 		case token.SUB:
-			w, err := c.width(e, tv.Type)
+			w, sg, err := c.ityp(e, tv.Type)
 			if err != nil {
 				return "", err
+			}
+			if sg {
+				return xlWrapS(w, "-("+a+")"), nil
 			}
 			return fmt.Sprintf("((2^%d - (%s)) %% 2^%d)", w, a, w), nil
 		}
@@ -610,7 +682,7 @@ func (x *xlFn) expr(e ast.Expr) (string, error) {
 				if otv.Value != nil {
 					continue // constants were checked (non-negative) above
 				}
-				if _, err := c.width(o, otv.Type); err != nil {
+				if _, _, err := c.ityp(o, otv.Type); err != nil { // Go compares operands of ONE type: both Nat or both Int
 					return "", err
 				}
 			}
@@ -624,21 +696,43 @@ func (x *xlFn) expr(e ast.Expr) (string, error) {
 			if len(e.Args) != 1 {
 				return "", c.errf(e, "conversion shape")
 			}
-			w, err := c.width(e, ftv.Type)
+			w, sg, err := c.ityp(e, ftv.Type)
 			if err != nil {
 				return "", err
 			}
 			atv := c.info.Types[e.Args[0]]
+			asg := false
 			if atv.Value == nil {
-				if _, err := c.width(e.Args[0], atv.Type); err != nil {
+				if _, asg, err = c.ityp(e.Args[0], atv.Type); err != nil {
 					return "", err
+				}
+			} else if atv.Value.Kind() == constant.Int {
+				// a constant operand (only reached when the conversion itself is not constant, i.e. never
+				// for integer constants; kept for completeness): Int literal iff constant() renders one
+				if b, ok := atv.Type.Underlying().(*types.Basic); ok && b.Info()&types.IsUnsigned == 0 &&
+					(b.Info()&types.IsUntyped == 0 || constant.Sign(atv.Value) < 0) {
+					asg = true
 				}
 			}
 			a, err := x.expr(e.Args[0])
 			if err != nil {
 				return "", err
 			}
-			return fmt.Sprintf("((%s) %% 2^%d)", a, w), nil
+			switch {
+			case !sg && !asg: // unsigned -> unsigned: truncate
+				return fmt.Sprintf("((%s) %% 2^%d)", a, w), nil
+			case sg && asg: // signed -> signed: wrap at the target width
+				return xlWrapS(w, a), nil
+			case sg && !asg: // unsigned -> signed: the Nat value as an Int, wrapped at the target width
+				return xlWrapS(w, "Int.ofNat ("+a+")"), nil
+			default: // signed -> unsigned: the residue mod 2^w (Int `%` with a positive modulus is non-negative)
+				return fmt.Sprintf("(Int.toNat ((%s) %% 2^%d))", a, w), nil
+			}
+		}
+		if x.ext != nil {
+			if s, ok, err := x.extCall(e); ok || err != nil {
+				return s, err
+			}
 		}
 		// atomic.LoadUint32(&s.v): the loaded word is the parameter
 		if c.spec.loaded != "" && xlIsLoad(e, c.spec.loaded) {
@@ -686,6 +780,12 @@ func (x *xlFn) expr(e ast.Expr) (string, error) {
 			}
 		}
 		return "", c.errf(e, "call outside the fragment")
+	case *ast.SelectorExpr, *ast.IndexExpr:
+		if x.ext != nil {
+			if s, ok, err := x.extOperand(e); ok || err != nil {
+				return s, err
+			}
+		}
 	}
 	return "", c.errf(e, "expression outside the fragment")
 }
@@ -725,9 +825,12 @@ func xlLoadRecv(e *ast.CallExpr) *ast.Ident {
 // binop: arithmetic / bitwise operator at the width of the static result type t.
 func (x *xlFn) binop(at ast.Node, op token.Token, t types.Type, a, b string, rhs ast.Expr) (string, error) {
 	c := x.c
-	w, err := c.width(at, t)
+	w, sg, err := c.ityp(at, t)
 	if err != nil {
 		return "", err
+	}
+	if sg {
+		return x.binopS(at, op, w, a, b, rhs)
 	}
 	switch op {
 	case token.OR:
@@ -750,6 +853,9 @@ func (x *xlFn) binop(at ast.Node, op token.Token, t types.Type, a, b string, rhs
 			if _, err := c.width(rhs, rtv.Type); err != nil { // a signed count panics when negative
 				return "", err
 			}
+		}
+		if rtv.Value != nil && rtv.Value.Kind() == constant.Int && constant.Sign(rtv.Value) >= 0 {
+			b = rtv.Value.ExactString() // a count is a Nat whatever the constant's type
 		}
 		if op == token.SHL {
 			return fmt.Sprintf("(((%s) <<< (%s)) %% 2^%d)", a, b, w), nil
